@@ -1,5 +1,7 @@
 import Vore.Model.Engine
 import Vore.Lemmas.SimR
+import Vore.Lemmas.ResolveWF
+import Vore.Lemmas.Flatten
 /-!
 # C13 — Definitions are transparent; commands, runs and compilations are independent
 
@@ -76,10 +78,68 @@ theorem C13_vm_follows_spec (r1 r2 : RExpr) (h1 : UniqueSubs r1) (h2 : UniqueSub
   exact ⟨max v1 v2, fun vf hle amt => by
     rw [hv1 vf (Nat.le_trans (Nat.le_max_left _ _) hle) amt, hv2 vf (Nat.le_trans (Nat.le_max_right _ _) hle) amt]⟩
 
+open Vore.Spec in
+/-- **definitions are transparent in every context**: matching with subroutine calls nested at most `cf`
+deep is — as a function of the position, the bindings and both continuations, i.e. wherever the
+expression stands — the call-free matching of the expression in which every call is replaced by the
+body of its target (and its predicate, if any) and every `{B} = s` by `B`, `cf` levels deep -/
+theorem C13_transparent_in_context (text : Bytes) (lf pf : Nat) (ρ : Procs) (cf : Nat) (e : RExpr) :
+    mrN text lf pf ρ cf e = mrWith text lf pf ρ noCall (flattenN ρ cf e) :=
+  mrN_flatten text lf pf ρ cf e
+
+open Vore.Spec in
+/-- spellings with the same flattening report the same matches on every text — specification level -/
+theorem C13_same_flattening_same_matches (text : Bytes) (pf cf : Nat) (r1 r2 : RExpr)
+    (h : flattenN (procsOf r1) cf r1 = flattenN (procsOf r2) cf r2) :
+    findAllR text pf cf r1 = findAllR text pf cf r2 :=
+  findAllR_of_flatten_eq text pf cf r1 r2 h
+
+open Vore.Spec in
+/-- … and so does the VM on their generated code, under every amount clause: for two command bodies
+(each with its own global patterns in scope) whose resolved forms flatten to the same expression, whenever
+the specification answers -/
+theorem C13_spellings_same_vm_results (G1 G2 : GEnv) (e1 e2 : Expr) (r1 r2 : RExpr)
+    (hr1 : resolveBody G1 e1 = some r1) (hr2 : resolveBody G2 e2 = some r2)
+    (hG1 : WfG G1) (hG2 : WfG G2) (he1 : WfE e1) (he2 : WfE e2) (n1 : lenR r1 ≠ 0) (n2 : lenR r2 ≠ 0)
+    (text : Bytes) (pf cf nid1 nid2 : Nat)
+    (h : flattenN (procsOf r1) cf r1 = flattenN (procsOf r2) cf r2)
+    (A : List Match) (hA : findAllR text pf cf r1 = some A) :
+    ∃ vf0, ∀ vf, vf0 ≤ vf → ∀ amt,
+      findMatches pf vf (genBody r1 nid1).1 amt text = findMatches pf vf (genBody r2 nid2).1 amt text := by
+  have hA2 : findAllR text pf cf r2 = some A := by rw [← findAllR_of_flatten_eq text pf cf r1 r2 h]; exact hA
+  exact C13_vm_follows_spec r1 r2 (resolveBody_unique G1 e1 r1 hr1) (resolveBody_unique G2 e2 r2 hr2)
+    (resolveBody_wf G1 e1 r1 hG1 he1 hr1) (resolveBody_wf G2 e2 r2 hG2 he2 hr2) n1 n2 text pf cf nid1 nid2 A hA hA2
+
+section examples
+open Vore.Spec
+
+/-- `B` = `('a' or 'b') digit`, context `'x' _ '-' _` -/
+private def bodyB : Expr :=
+  .seq (.branch (.atom (.str false false [97])) (.atom (.str false false [98]))) (.seq (.atom (.cls false .digit)) .empty)
+private def inPlace : Expr :=
+  .seq (.atom (.str false false [120])) (.seq bodyB (.seq (.atom (.str false false [45])) (.seq bodyB .empty)))
+private def withSub : Expr :=
+  .seq (.atom (.str false false [120])) (.seq (.sub "s" bodyB) (.seq (.atom (.str false false [45])) (.seq (.var "s") .empty)))
+private def withGlobal : Expr :=
+  .seq (.atom (.str false false [120])) (.seq (.var "s") (.seq (.atom (.str false false [45])) (.seq (.var "s") .empty)))
+
+/-- non-vacuity: the three spellings of the property (`B` in place, `{B} = s … s`, `set s to pattern B … s`)
+resolve, and flatten to the same expression -/
+example : ∃ r1 r2 r3, resolveBody [] inPlace = some r1 ∧ resolveBody [] withSub = some r2 ∧
+    resolveBody [("s", bodyB, .skip)] withGlobal = some r3 ∧
+    flattenN (procsOf r1) 1 r1 = flattenN (procsOf r2) 1 r2 ∧
+    flattenN (procsOf r2) 1 r2 = flattenN (procsOf r3) 1 r3 :=
+  ⟨_, _, _, rfl, rfl, rfl, rfl, rfl⟩
+
+end examples
+
 #print axioms C13_sub_transparent
 #print axioms C13_call_transparent
 #print axioms C13_global_transparent
 #print axioms C13_vm_follows_spec
+#print axioms C13_transparent_in_context
+#print axioms C13_same_flattening_same_matches
+#print axioms C13_spellings_same_vm_results
 #print axioms C13_concat
 #print axioms C13_relocate_atoms
 
